@@ -164,7 +164,9 @@ func readerShape(repo string) map[string]bool {
 				}
 			}
 			want := []string{"readingMessages.Store(false)", "r.cc.ProcessReceivedMessage", "r.private.mutex.Lock", "readingMessages.Store(true)", "r.private.mutex.Unlock"}
-			if strings.Join(calls, ";") == strings.Join(want, ";") {
+			// exactly these five statements: anything else in the case (e.g. handing the message back to the queue) is not the
+			// structure the model follows
+			if len(cc.Body) == len(want) && strings.Join(calls, ";") == strings.Join(want, ";") {
 				facts["loopClearsFlagProcessesSetsFlagUnderMutex"] = true
 			}
 		default:
